@@ -15,7 +15,7 @@ def modelSig (f : Fields) : TcpSig :=
   { version := ver f, ittl := calculateTtl f.ip.ttl,
     olen := if f.ip.v6 then ipv6OptLen else ipv4OptLen f.ip.ihl,
     mss := (walked f).mss,
-    wsize := detectWin f.tcp.window ((walked f).mss.getD 0) (codeHdr f) ((walked f).olayout.contains .ts) (ver f),
+    wsize := detectWin f.tcp.window ((walked f).mss.getD 0) 0 ((walked f).olayout.contains .ts) (ver f),
     wscale := (walked f).wscale, olayout := (walked f).olayout, quirks := (walked f).quirks,
     pclass := if f.tcp.payLen = 0 then .zero else .nonZero }
 
@@ -37,13 +37,13 @@ theorem process_ok (f : Fields) (hp : f.ip.proto = 6)
   · rcases hfrag with h | ⟨h1, h2⟩
     · rw [h6] at h; cases h
     · unfold process visitTcp
-      simp only [h6, hp, PROTO_TCP, h1, h2, hv, modelSig, modelMtu, walked, hdrQuirks, ver, codeHdr]
+      simp only [h6, hp, PROTO_TCP, h1, h2, hv, modelSig, modelMtu, walked, hdrQuirks, ipQuirks, ver, codeHdr]
       simp
-      cases (walk (tcpType f.tcp.flags) f.tcp.opts { quirks := ipQuirksV4 f.ip ++ tcpQuirks f.tcp }).mss <;> rfl
+      cases (walk (tcpType f.tcp.flags) f.tcp.opts { quirks := ipQuirksV4 f.ip ++ tcpQuirks (ipQuirksV4 f.ip) f.tcp }).mss <;> rfl
   · unfold process visitTcp
-    simp only [h6, hp, PROTO_TCP, hv, modelSig, modelMtu, walked, hdrQuirks, ver, codeHdr]
+    simp only [h6, hp, PROTO_TCP, hv, modelSig, modelMtu, walked, hdrQuirks, ipQuirks, ver, codeHdr]
     simp
-    cases (walk (tcpType f.tcp.flags) f.tcp.opts { quirks := ipQuirksV6 f.ip ++ tcpQuirks f.tcp }).mss <;> rfl
+    cases (walk (tcpType f.tcp.flags) f.tcp.opts { quirks := ipQuirksV6 f.ip ++ tcpQuirks (ipQuirksV6 f.ip) f.tcp }).mss <;> rfl
 
 theorem process_invalid (f : Fields) (hp : f.ip.proto = 6)
     (hfrag : f.ip.v6 = true ∨ (f.ip.fragOff = 0 ∧ ¬ (f.ip.flags &&& IP_MF = IP_MF)))
@@ -113,13 +113,6 @@ theorem layout_contains_ts (a : Area) (hpad : a.pad = none ∨ a.pad = some []) 
     · rcases hpad with h' | h' <;> rw [h'] at h <;> simp at h
   · rintro ⟨i, hi, he⟩
     exact Or.inl ⟨i, hi, he⟩
-
-theorem lastDiv_code (f : Fields) (m : Nat) :
-    lastDiv m (codeHdr f) (ver f) = min (m + Huginn.KF.C03.codeWinHdr f) 65535 := by
-  unfold lastDiv codeHdr ver Huginn.KF.C03.codeWinHdr satAdd16
-  cases f.ip.v6
-  · by_cases h : f.ip.ihl > 0 <;> simp [h, TcpConst.minTcp4]
-  · simp [TcpConst.ipv6HdrLen]
 
 theorem extractMtu4_eq (fl ihl doff m : Nat) (h : ((fl &&& SYN) == SYN) = true)
     (hc : ihl * 4 + (if doff * 4 > 20 then doff * 4 - 20 else doff * 4) = 40) (hfit : m + 40 ≤ 65535) :
